@@ -22,7 +22,8 @@ THEOREMS = {
             'C12_disjoint_writes_commute', 'C12_getters_observe_the_state', 'C12_overlapping_fields_alias_coherently',
             'C12_real_code_any_history', 'C12_run_obligations_give_setters_ok', 'C02_setter_exact', 'C12_generator_model_any_history'],
     'C13': ['C13_builder_is_the_with_chain_from_the_default', 'C13_every_argument_reads_back',
-            'C13_uncovered_bits_keep_the_default', 'C12_real_code_any_history', 'C12_run_obligations_give_setters_ok'],
+            'C13_uncovered_bits_keep_the_default', 'C13_expected_step_performs_the_with_calls', 'C12_real_code_any_history',
+            'C12_run_obligations_give_setters_ok'],
     'C14': ['C14_overlap_test_is_exact', 'C14_offered_iff_sound', 'C14_chain_masks_strictly_grow',
             'C14_only_the_complete_chain_reaches_build', 'C14_the_complete_chain_typechecks',
             'C14_build_typechecks_iff_every_field_supplied_in_order'],
@@ -30,7 +31,7 @@ THEOREMS = {
     'C17': ['C17_field_api_is_exactly_what_the_specifier_says', 'C17_whole_api_surface',
             'C17_only_setters_of_writable_fields_mutate', 'C17_writes_elsewhere_do_not_touch_a_field', 'C02_frame'],
     'C18': ['C18_public_items_are_documented', 'C18_builder_items_are_documented'],
-    'C19': ['C19_every_field_by_name_in_order', 'C19_text_is_a_function_of_the_getters', 'C01_getter_exact'],
+    'C19': ['C19_every_field_by_name_in_order', 'C19_text_is_a_function_of_the_getters', 'C19_standard_struct_format', 'C01_getter_exact'],
     'C16': ['C16_seval_total_profile_independent', 'C16_checked_ok_then_unchecked_same', 'C01_getter_exact',
             'C02_setter_exact', 'C01_generator_model_every_getter', 'C02_generator_model_every_setter', 'C12_generator_model_any_history', 'C03_generator_model_out_of_range_index_panics'],
 }
